@@ -28,8 +28,9 @@ ASSUMPTIONS = [
     "variable with flog(ab) = flog a + flog b for non-zero a, b",
     "theorems are over an arbitrary real field (no rounding); shock covariances symmetric; statements that mention the inverse "
     "of F need F invertible in every period",
-    "stationary models only: the GLS estimate of an unknown initial condition (unit roots, diffuse_method='fixed_unknown') is "
-    "not modelled; one parameter variant; no anticipated shocks in the correspondence",
+    "unit-root models: diffuse_method='fixed_unknown' (the default) with the unit roots identified by the data (the GLS "
+    "system is solved by the inverse in the model, by lstsq in the code); one parameter variant; the impact of anticipated "
+    "shocks enters the model as an input that the harness derives from a public simulate() run on a fresh model object",
     "the model follows the code as repaired by fixes/C03_1.patch (contributions carry the variance scale)",
 ]
 
@@ -53,13 +54,13 @@ MANIFEST = {
                   "characterisation of predicted quantities of shocks; these are checked numerically by the falsifier (dense "
                   "conditioning of the stacked Gaussian) on every run; the smoother's structural identities are under C08.  "
                   "Trusted: Coq kernel + vm_compute, harness, Gauss-Jordan vs LAPACK, recorded initial condition checked "
-                  "against its defining equations.  Not covered: unit-root models / GLS initial condition, float rounding, "
+                  "against its defining equations.  Not covered: rank-deficient GLS systems and diffuse methods other than fixed_unknown, float rounding, "
                   "differences below 1e-7 relative.",
 }
 
 
 def correspondence(ctx) -> CorrResult:
-    n = int(os.environ.get("VERIF_KF_CASES", ctx.scale(200, 1200)))      # development knob
+    n = int(os.environ.get("VERIF_KF_CASES", ctx.scale(250, 1200)))      # development knob
     return kc.correspondence(ctx, n_cases=n, n_exact=ctx.scale(3, 12) if n >= 100 else 0,
                              max_periods=ctx.scale(8, 24), pid=ID)
 
